@@ -173,8 +173,10 @@ class Worker(threading.Thread):
                         self.summaries.append(json.loads(line[2:]))
                         got_summary = True
                     elif line.startswith("R "):
-                        self.reports.append(json.loads(line[2:]))
-                        pool.note_failure()
+                        rep = json.loads(line[2:])
+                        self.reports.append(rep)
+                        if rep.get("result", {}).get("outcome") != "OK":
+                            pool.note_failure()
                     elif line.startswith("P "):
                         self.samples.append(json.loads(line[2:]))
                 rc = proc.wait()
